@@ -33,6 +33,9 @@ type SymBool struct{ T *smt.Term }
 type TimeByte struct {
 	T *smt.Term
 	I int
+	// Inc: the last byte of the group incremented by one (what PrefixEndBytes does to build an
+	// exclusive upper bound): the group then sorts right after every key carrying time T.
+	Inc bool
 }
 
 // Blob is a marshalled message (codec stub): one element of a []byte-typed slice.
